@@ -100,7 +100,7 @@ def gen_args(rng, fn, sig):
         elif p.startswith("S:"): args.append([_bval(rng) for _ in range(int(p.split(":")[2]))])
         elif p == "P":
             n = rng.choice([0, 1, 2, 8, 16, 17, 120, 121, 122, 130])
-            args.append([rng.choice([0xFF, 0x20, 0x0A, rng.randrange(256)]) for _ in range(n)])
+            args.append([rng.choice([0xFF, 0x20, 0x0A, 0x09, 0x0D, 0x0B, 0x0C, 0x00, 0x1F, 0x85, 0xA0, rng.randrange(256)]) for _ in range(n)])
         elif p == "V":
             a = rng.choice([0, 1, 59, 60, 119, 120]); b = rng.choice([0, 1, 59, 60, 119, 120])
             args += [a, [rng.randrange(256) for _ in range(a)], b, [rng.randrange(256) for _ in range(b)]]
